@@ -231,6 +231,19 @@ func (x *Exec) callExternal(st *State, call *ast.CallExpr, callee *types.Func, p
 		e := x.fresh("err", SInt)
 		x.noteOSErr(st, e)
 		return []Value{sc(x.fresh("nw", SInt)), OpaqueV{T: e, Typ: types.Universe.Lookup("error").Type()}}
+	case "os.*File.WriteString":
+		as := args()
+		p := recv.(PtrV)
+		x.ghostLog(st, "write", App(SStr, "file-name", p.Ref))
+		x.ghostLog(st, "writestr", asTerm(as[0]))
+		e := x.fresh("err", SInt)
+		x.noteOSErr(st, e)
+		return []Value{sc(x.fresh("nw", SInt)), OpaqueV{T: e, Typ: types.Universe.Lookup("error").Type()}}
+	case "time.Now":
+		return []Value{OpaqueV{T: x.fresh("time", SInt), Typ: callee.Type().(*types.Signature).Results().At(0).Type()}}
+	case "time.Since":
+		args()
+		return []Value{sc(x.fresh("duration", SInt))}
 	case "os.*File.Close":
 		return []Value{OpaqueV{T: x.fresh("err", SInt), Typ: types.Universe.Lookup("error").Type()}}
 	case "os.FileMode":
